@@ -300,3 +300,62 @@ def generated_wrappers_hold_the_access_lock(ctx):
                       'insideRW counter of struct parameters is no longer protected', fi)
     if n < 2:
         raise AnchorMissing('generated wrappers new_rfunc / new_wfunc not found')
+
+
+@rule('C18.R4c', min_instances=4)
+def hand_over_switches_both_sides(ctx):
+    """taking over control: activate_control switches the new controller on on every path (set_control_active(True)) and, on the
+    side where there is an output module, deactivates the others and stores its own name in controlled_by;
+    deactivate_control switches off (False) on the side where control was active; self_controlled() resets controlled_by and
+    switches the inputs off on the side where somebody was controlling; the insideRW counter moves by one in both
+    directions"""
+    m = ctx.m
+    ac = m.method('frappy.mixins.HasOutputModule', 'activate_control', inherited=False)
+    ctx.analysed(ac)
+    cfg = CFG(ac.node, m, ac.module)
+    on = [c for c in calls_in(ac.node) if call_attr(c) == 'set_control_active' and c.args and isinstance(c.args[0], ast.Constant) and c.args[0].value is True]
+    ids = [i for c in on for i in cfg.node_of(c)]
+    ctx.check(bool(ids) and cfg.all_paths_pass([cfg.entry], [cfg.exit], ids, exc=False), f'{ac.qualname}:new controller is switched on', ac.node,
+              'set_control_active(True) on every path', 'taking over control does not mark the new controller as active: the output names a module that says it is not controlling', ac)
+    for t in cfg.nodes:
+        if t.kind == 'test' and src(t.ast).replace('not ', '') in ('out', 'self.output_module'):
+            neg = src(t.ast).startswith('not ')
+            side = cfg.reach([t.id], labels={'F' if neg else 'T'}, avoid=[t.id])
+            stores = {i for tg, v, s in attr_stores(ac.node) if tg.attr == 'controlled_by' for i in cfg.node_of(s)}
+            ctx.check(bool(stores) and stores <= side, f'{ac.qualname}:output is told who controls it', t.ast, 'out.controlled_by = self.name on the side with an output module',
+                      f'`{src(t.ast)}`: controlled_by is stored only when there is NO output module (AttributeError on None)', ac)
+    dc = m.method('frappy.mixins.HasOutputModule', 'deactivate_control', inherited=False)
+    ctx.analysed(dc)
+    cfgd = CFG(dc.node, m, dc.module)
+    off = {i for c in calls_in(dc.node) if call_attr(c) == 'set_control_active' and c.args and isinstance(c.args[0], ast.Constant) and c.args[0].value is False
+           for i in cfgd.node_of(c)}
+    ok = bool(off)
+    for t in cfgd.nodes:
+        if t.kind == 'test' and src(t.ast).replace('not ', '') == 'self.control_active':
+            neg = src(t.ast).startswith('not ')
+            ok = ok and off <= cfgd.reach([t.id], labels={'F' if neg else 'T'}, avoid=[t.id])
+    ctx.check(ok, f'{dc.qualname}:an active controller is switched off', dc.node, 'set_control_active(False) on the active side',
+              'deactivate_control does not switch an active controller off: two modules are marked as controlling one output', dc)
+    sc = m.method('frappy.mixins.HasControlledBy', 'self_controlled', inherited=False)
+    ctx.analysed(sc)
+    cfgs = CFG(sc.node, m, sc.module)
+    for t in cfgs.nodes:
+        if t.kind == 'test' and src(t.ast).replace('not ', '') == 'self.controlled_by':
+            neg = src(t.ast).startswith('not ')
+            side = cfgs.reach([t.id], labels={'F' if neg else 'T'}, avoid=[t.id])
+            st = {i for tg, v, s in attr_stores(sc.node) if tg.attr == 'controlled_by' and isinstance(v, ast.Constant) and v.value == 0 for i in cfgs.node_of(s)}
+            de = {i for c in calls_in(sc.node) if isinstance(c.func, ast.Name) and 'deactivate' in c.func.id for i in cfgs.node_of(c)}
+            ctx.check(bool(st) and st <= side and bool(de) and de <= side, f'{sc.qualname}:controllers are switched off when the output takes over', t.ast,
+                      'controlled_by = 0 and the deactivation loop on the controlled side',
+                      f'`{src(t.ast)}`: a write to the output does not switch the controlling input off (or only when nobody is controlling)', sc)
+    n = 0
+    for q, fi in sorted(m.functions.items()):
+        if fi.module.name != 'frappy.extparams':
+            continue
+        for x in body_walk(fi.node):
+            if isinstance(x, ast.AugAssign) and isinstance(x.target, ast.Attribute) and x.target.attr == 'insideRW':
+                n += 1
+                ctx.check(isinstance(x.value, ast.Constant) and x.value.value == 1, f'{fi.qualname}:insideRW moves by one', x, src(x),
+                          f'`{src(x)}` does not move the counter by exactly one: the suppression of member callbacks is never entered or never left', fi)
+    if n < 2:
+        raise AnchorMissing('insideRW counter updates not found')
